@@ -1,6 +1,6 @@
 CONSTANT MaxLen = 4
 CONSTANT Levels = {0, 15000, 22500}
-CONSTANT NegLevels = {}
+CONSTANT NegLevels = {5000}
 INIT Init
 NEXT Next
 INVARIANT C19_GuardPartition
